@@ -60,7 +60,7 @@ class Harness(object):
         self.patch = clients.Patched(self.clock, self.line)
         self.patch.__enter__()
         kw = dict(retries=0, timeout=3)
-        if fault:
+        if fault and fault[0] == 'drop-first':
             kw = dict(retries=fault[1], retry_on_empty=True, retry_on_invalid=True, backoff=0.3, timeout=3)
         if broadcast:
             kw['broadcast_enable'] = True
@@ -123,7 +123,7 @@ class Harness(object):
         if p is None:
             return
         m = pdu.decode('req', p['pdu'])
-        if self.fault and self.dropped is None:
+        if self.fault and self.fault[0] == 'drop-first' and self.dropped is None:
             self.dropped = p['unit'] - UNIT
             return                                   # the device misses this request: its sender times out
         if p['unit'] == 0 and self.broadcast:
@@ -149,6 +149,16 @@ class Harness(object):
                     r = self.client.execute(req)
                     self.log.append((t, 'end'))
                     self.results[t].append(('broadcast', r))
+                    continue
+                if self.fault and self.fault[0] == 'raise-first' and t == 0 and j == 0:
+                    # a request that cannot be encoded (register value 70000): the call raises -- and must not
+                    # leave the client unusable for the other callers
+                    try:
+                        self.client.write_register(1, 70000, unit=UNIT + t)
+                        self.results[t].append(('poison', 'no exception'))
+                    except Exception as e:   # noqa
+                        self.results[t].append(('poison', e))
+                    self.log.append((t, 'end'))
                     continue
                 req = bind.to_obj(dict(m, unit=UNIT + t))         # every caller talks to its own unit
                 r = self.client.execute(req)
@@ -199,7 +209,7 @@ def judge(acc, s, h, name, bound):
     # every caller gets the reply to its own request
     for t, res in h.results.items():
         for m, r in res:
-            if m == 'broadcast':
+            if m in ('broadcast', 'poison'):
                 continue
             d = clientsim.describe(r)
             want = h.expected(m)
@@ -234,6 +244,9 @@ def parse_name(name):
     if '+drop' in head:
         head, r = head.split('+drop')
         fault = ('drop-first', int(r))
+    if '+raise' in head:
+        head = head.replace('+raise', '')
+        fault = ('raise-first', 0)
     return head.replace('+broadcast', ''), tuple(int(x) for x in sh.split('x')), '+broadcast' in head, fault
 
 
@@ -241,7 +254,7 @@ def shard(args):
     kind, shape, broadcast, bound = args[:4]
     fault = args[4] if len(args) > 4 else None
     acc = Acc()
-    name = '%s%s%s:%dx%d' % (kind, '+broadcast' if broadcast else '', '+drop%d' % fault[1] if fault else '', shape[0], shape[1])
+    name = '%s%s%s:%dx%d' % (kind, '+broadcast' if broadcast else '', ('+drop%d' % fault[1] if fault[0] == 'drop-first' else '+raise') if fault else '', shape[0], shape[1])
     hs = []
 
     def make(s):
@@ -270,6 +283,7 @@ def run(tier, seed):
     # the first request on the wire is never answered: its caller times out (and retries once when configured to);
     # the other callers are queued meanwhile
     for k in ('tcp', 'serial-rtu'):
+        shards.append((k, (2, 2), False, 2, ('raise-first', 0)))
         for retries in (0, 1):
             shards.append((k, (2, 2), False, 2, ('drop-first', retries)))
             if tier == 'thorough':
